@@ -629,3 +629,5 @@ func (t token_) tok() token.Token {
 	}
 	return token.GTR
 }
+
+func tokADD() token.Token { return token.ADD }
